@@ -33,3 +33,28 @@ package oracle
 //@ requires len(ctx.VoteInfos()) <= 4096 && (forall j :: 0 <= j && j < len(ctx.VoteInfos()) ==> 0 <= ctx.VoteInfos()[j].Validator.Power && ctx.VoteInfos()[j].Validator.Power <= 1125899906842624)
 //@ requires keeper.oracleParams(Store_oracle).OracleRewardPercentage <= 100
 //@ ensures err == nil ==> (forall d Str :: DistrAllocated[d] - old(DistrAllocated)[d] == DistrReceived[d] - old(DistrReceived)[d])
+
+// ---- C11: the content signed for an oracle result starts with the tag of the encoding that was asked for ---------------
+// (tags as numbers, independent of the constants in the code: Proto 01e2adb3, FullABI 45b4e7ea, PartialABI 7bae7cd8; two
+// encodings under one tag would make a consumer that dispatches on the tag decode the 7-field tuple as the 11-field one)
+//@ func NewSignatureOrderHandler$lit0
+//@ may_panic calls
+//@ modifies *
+//@ ensures err == nil ==> typeis(content, "*types.OracleResultSignatureOrder")
+//@ ensures err == nil ==> (let c = unbox(content, "*types.OracleResultSignatureOrder") in
+//@        (c.Encoder == types.ENCODER_PROTO || c.Encoder == types.ENCODER_FULL_ABI || c.Encoder == types.ENCODER_PARTIAL_ABI)
+//@     && (c.Encoder == types.ENCODER_PROTO ==> result[0] == 1 && result[1] == 226 && result[2] == 173 && result[3] == 179)
+//@     && (c.Encoder == types.ENCODER_FULL_ABI ==> result[0] == 69 && result[1] == 180 && result[2] == 231 && result[3] == 234)
+//@     && (c.Encoder == types.ENCODER_PARTIAL_ABI ==> result[0] == 123 && result[1] == 174 && result[2] == 124 && result[3] == 216))
+
+// ---- C02 / C14: the module's ABCI entry point returns exactly what its blocker returned --------------------------------
+// (an error of the blocker must reach the SDK, which aborts the block; swallowing it would commit whatever the failed
+// blocker had already written - e.g. a fee share taken from the fee collector but only partly paid out)
+//@ func (am AppModule) BeginBlock
+//@ may_panic calls
+//@ modifies *
+//@ forwards BeginBlocker
+//@ func (am AppModule) EndBlock
+//@ may_panic calls
+//@ modifies *
+//@ forwards EndBlocker
